@@ -1,4 +1,5 @@
 import TR.Lemmas.Chaos
+import TR.Lemmas.ChaosStress
 /-!
 # C19 — chaos injection is reproducible and bounded; injected errors skip the inner call
 
@@ -223,7 +224,67 @@ theorem error_iff {γ : Type} (G : Gen γ) (cfg : Cfg) (g : γ) :
     (decideG G cfg g).1 = .error ↔ cfg.eT > 0 ∧ (G.nextF g).1 < cfg.eT :=
   decideG_error_iff G cfg g
 
+/-! ## many threads on clones of one service
+
+Assumption (not proved here, it is a property of `std::sync::Mutex`): the rolls of one request are
+drawn atomically — the decision block runs under the mutex of the generator all clones share. Then a
+parallel execution decides like the sequential run in which the first polls are ordered by lock
+acquisition, i.e. like SOME operation list of the machine, and the theorems above apply to it. The
+theorems below are the oracles of the harness's real-thread stress search (`manual stress`), which
+looks for executions that are not of this kind; that search is sampling, not proof. -/
+
+/-- **Whatever the interleaving, the same multiset of decisions.** For every schedule (every order in
+which requests of whichever thread arrive, are first polled, polled again, dropped) each decision
+occurs among the decisions taken exactly as often as among the first `n` entries of the seed's
+stream, `n` the number of requests decided. -/
+theorem interleaving_multiset {γ : Type} (G : Gen γ) (cfg : Cfg) (g : γ) (ops : List ROp) (d : Decision) :
+    (runR G cfg g ops).1.decs.count d = (streamG G cfg g (runR G cfg g ops).1.decs.length).count d :=
+  congrArg (List.count d) (runR_synced G cfg g ops).1
+
+/-- …so two schedules of the same `n` requests (say the threads' requests interleaved in two different
+ways) take the same decisions up to order — in fact in the same order of first polls. -/
+theorem interleavings_agree {γ : Type} (G : Gen γ) (cfg : Cfg) (g : γ) (ops₁ ops₂ : List ROp)
+    (h : (runR G cfg g ops₁).1.decs.length = (runR G cfg g ops₂).1.decs.length) :
+    (runR G cfg g ops₁).1.decs.Perm (runR G cfg g ops₂).1.decs := by
+  rw [(deterministic G cfg g ops₁ ops₂ h).1]
+
+/-- **Error rate 1: every call fails**, however many calls there are: the seed's stream is "inject"
+throughout (so is the decision list of every schedule, by `decisions_are_seed_stream`). -/
+theorem always_fails_stream {γ : Type} (G : Gen γ) (cfg : Cfg) (g : γ) (hL : Lawful cfg G) (he : cfg.eT = P53)
+    (n : Nat) : streamG G cfg g n = List.replicate n .error :=
+  streamG_all_error G cfg g hL he n
+
+/-- Both rates 0: every call passes, however many calls there are. -/
+theorem transparent_stream {γ : Type} (G : Gen γ) (cfg : Cfg) (g : γ) (he : cfg.eT = 0) (hl : cfg.lT = 0)
+    (n : Nat) : streamG G cfg g n = List.replicate n .pass :=
+  streamG_all_pass G cfg g he hl n
+
+/-- The check the model applies to the tallies of a stress run (`stressAllowed`: one decision per call;
+error rate 1 ⇒ all fail; error rate 0 ⇒ none fails; latency rate 0 ⇒ none delayed; latency rate 1 ⇒
+none passes undelayed) holds for the decisions of every schedule, for every seed: the model never
+rejects an execution that respects the atomicity assumption. -/
+theorem stress_oracle_sound {γ : Type} (G : Gen γ) (cfg : Cfg) (g : γ) (hL : Lawful cfg G) (ops : List ROp) :
+    stressAllowed cfg (runR G cfg g ops).1.decs.length (tally (runR G cfg g ops).1.decs) = true := by
+  have h := (runR_synced G cfg g ops).1
+  have t := stress_tally_allowed G cfg g hL (runR G cfg g ops).1.decs.length
+  rw [← h] at t
+  exact t
+
+/-- Every decision list is tallied completely: errors + delays + passes = number of calls. -/
+theorem tally_complete (l : List Decision) : (tally l).ne + (tally l).nl + (tally l).np = l.length :=
+  tally_total l
+
 /-! ## non-vacuity -/
+
+/-- The stress check accepts the tallies of a lawful stream and rejects what a request that skips its
+rolls produces (error rate 1, 5 calls, one of them passed through). -/
+example :
+    let cfg : Cfg := { eT := P53, lT := 0, minMs := 0, maxMs := 0 }
+    stressAllowed cfg 5 (tally (streamG counterGen cfg 0 5)) = true ∧
+    stressAllowed cfg 5 ⟨4, 0, 1⟩ = false ∧
+    stressAllowed { eT := P53 / 2, lT := P53 / 2, minMs := 1, maxMs := 5 } 7 ⟨3, 2, 2⟩ = true ∧
+    stressAllowed { eT := P53 / 2, lT := P53 / 2, minMs := 1, maxMs := 5 } 7 ⟨3, 2, 1⟩ = false := by
+  decide
 
 /-- A generator within the contract exists (so the `Lawful` hypotheses are satisfiable), and on
 it all three decisions occur: rate ½ for both, range [2,5]. -/
